@@ -168,6 +168,43 @@ func init() {
 		return nil
 	}
 	verifAPI["verifSymbolic"] = func(fr *frame, args []value) value { return true }
+	// schedule policy for the coroutine scheduler: 0 FIFO, 1 LIFO, 2 a spawned
+	// goroutine runs first
+	verifAPI["verifSchedPolicy"] = func(fr *frame, args []value) value {
+		fr.i.sched.policy = int(fr.i.concreteInt(args[0], "schedule policy"))
+		return nil
+	}
+	// the next n scheduling decisions with more than one runnable goroutine
+	// fork the exploration (one path per candidate)
+	verifAPI["verifSchedChoose"] = func(fr *frame, args []value) value {
+		fr.i.sched.choose = int(fr.i.concreteInt(args[0], "schedule choice budget"))
+		return nil
+	}
+	verifAPI["verifGosched"] = func(fr *frame, args []value) value { fr.i.sched.gosched(); return nil }
+	verifAPI["verifIdle"] = func(fr *frame, args []value) value { fr.i.sched.idleWait(); return nil }
+	// from here on a state in which every goroutine is blocked is a violation
+	// (reported like a panic, with the given message)
+	verifAPI["verifNoDeadlock"] = func(fr *frame, args []value) value {
+		fr.i.deadlockMsg = cstr(args[0], "deadlock message")
+		return nil
+	}
+	// let the other goroutines run until they block or finish
+	verifAPI["verifYield"] = func(fr *frame, args []value) value {
+		s := fr.i.sched
+		me := s.cur
+		for {
+			next := s.pick(me)
+			if next == nil {
+				return nil
+			}
+			was := s.draining
+			s.draining = true
+			me.ready = func() bool { return false }
+			s.transfer(next)
+			me.ready = nil
+			s.draining = was
+		}
+	}
 	verifAPI["verifOverride"] = func(fr *frame, args []value) value {
 		name := cstr(args[0], "override name")
 		f := args[1]
@@ -280,6 +317,7 @@ func init() {
 		return int64(0)
 	}
 	verifAPI["verifNow"] = func(fr *frame, args []value) value { return intrinsics["time.Now"](fr, nil) }
+	verifAPI["verifSleep"] = func(fr *frame, args []value) value { return intrinsics["time.Sleep"](fr, args) }
 	verifAPI["verifExpectExit"] = func(fr *frame, args []value) value { fr.i.expectExit = true; return nil }
 	verifAPI["verifRunWithCrash"] = func(fr *frame, args []value) (res value) {
 		// verifRunWithCrash(k, f): run f; the process is killed (SIGKILL: no deferred
